@@ -155,6 +155,10 @@ def run(chk):
                 method = {"phases": [{"name": "p0", "next": "p0", "calls": calls},
                                      {"name": "p1", "next": "p0", "calls": fprofile.P1_CALLS}], "initial": "p0"}
                 jobs.append((method, {"<t>": 0, "<dt>": 1, fprofile.Y: [1, 2], fprofile.N: n0, fprofile.M: m0}, 2))
+    for calls, nxt in fprofile.transition_family():
+        method = {"phases": [{"name": "p0", "next": nxt, "calls": calls},
+                             {"name": "p1", "next": "p0", "calls": fprofile.P1_CALLS}], "initial": "p0"}
+        jobs.append((method, {"<t>": 0, "<dt>": 1, fprofile.Y: [1, 2], fprofile.N: 0, fprofile.M: 0}, 4))
     for calls in programs:
         method = {"phases": [{"name": "p0", "next": rng.choice(["p0", "p0", "p1"]), "calls": calls},
                              {"name": "p1", "next": "p0", "calls": fprofile.P1_CALLS}], "initial": "p0"}
